@@ -75,6 +75,10 @@ def candidate_names():
             names.add(inst.upper())
             names.add(inst.lower())
             names.add(pat.replace("*", "x.y.z"))
+            # the pattern is anchored at both ends: its literal text in the middle of a name, before another extension, or
+            # followed / preceded by other characters is not a match of that pattern
+            lit = pat.replace("*", "")
+            names.update({f"pre_{lit}", f"{lit}_post", f"pre_{lit}.xyz", f"pre_{lit}_post", f"a{pat.replace('*', 'b')}c"})
     names |= {"x.cp2k.out", "FCIDUMP.molden", "POSCAR.xyz", "x.molden.input", "a.fchk.xyz", "CHGCAR.cube", "LOCPOT", "POSCAR",
               "noextension", "x.unknown_ext", "x.json", ".xyz", "xyz", "x.XYZ", "x.Fchk", "molecule.wfn.wfx", "AECCAR0", "x.log.gro",
               "x.pdb.sdf.mol2", "weird name.xyz", "x.xyz ", "FCIDUMP", "a.fcidump.dat"}
